@@ -114,6 +114,20 @@ def replay_case(arg):
                 fail('Solution', 'shape', dict(ctx, got=list(out.shape), expected=list(exp_out.shape)))
             elif not interp.close(out, exp_out, rtol=1e-6, atol=1e-8):
                 fail('Solution', 'outputs', dict(ctx, got=out.tolist(), expected=exp_out.tolist()))
+        # ---- a simulation is a function of its arguments: the same solver object, sensitivities still on, is used at another
+        # point and then again at the first one (the solver keeps its state AND its state sensitivities from run to run
+        # unless it is reset -- RefSim does, as myokit.Simulation does)
+        if not fails and free:
+            with warnings.catch_warnings():
+                warnings.simplefilter('error', RuntimeWarning)
+                model.simulate(np.round(vfree * 1.07 + 0.01, 4), times.copy() + 0.3)
+                out3, sens3 = model.simulate(vfree.copy(), times.copy())
+            cnt['evaluations'] = cnt.get('evaluations', 0) + 2
+            cnt['repeated_calls_with_sensitivities'] = 1
+            if not interp.close(np.asarray(out3, dtype=float), exp_out, rtol=1e-6, atol=1e-8):
+                fail('Solution', 'outputs_of_a_repeated_call', dict(got=np.asarray(out3).tolist(), expected=exp_out.tolist()))
+            if not interp.close(np.asarray(sens3, dtype=float), exp_sens, rtol=1e-6, atol=1e-7):
+                fail('Solution', 'sensitivities_of_a_repeated_call', dict(got=np.asarray(sens3).tolist(), expected=exp_sens.tolist()))
         # ---- the same outputs selected again in ANOTHER order while sensitivities are on: whatever the model returns next
         # (chi switches the sensitivities off; a model that kept them would have to re-order them) follows the new order
         if not fails and free and len(set(onames)) >= 2:
